@@ -92,3 +92,48 @@ Proof.
   destruct sc as [[[m x] o] e]. unfold agree in H. rewrite forallb_forall in H. specialize (H s1 H1).
   rewrite forallb_forall in H. specialize (H s2 H2). apply Z.eqb_eq in H. exact H.
 Qed.
+
+(* ---- the code model itself, exhaustively on the same finite domain: the score reported is the optimum of
+   the enumeration and the rows returned score exactly that (when some alignment is positive) *)
+Definition model_opt (sc : Z * Z * Z * Z) (ws : list (list byte)) : bool :=
+  let '(m, x, o, e) := sc in
+  forallb (fun s1 => forallb (fun s2 =>
+     match align_pair false (mkscheme false m x o e) s1 s2 with
+     | Some r => Z.eqb (r_score r) (best_enum (mm m x) o e s1 s2) &&
+                 (Z.eqb (r_score r) 0 || Z.eqb (score_cols (mm m x) o e (r_row1 r) (r_row2 r) 0) (r_score r))
+     | None => false end) ws) ws.
+
+Lemma code_model_optimal_small :
+  forall sc s1 s2, In sc small_schemes -> In s1 small_words -> In s2 small_words ->
+  let '(m, x, o, e) := sc in
+  exists r, align_pair false (mkscheme false m x o e) s1 s2 = Some r /\
+            r_score r = best_enum (mm m x) o e s1 s2 /\
+            (r_score r = 0 \/ score_cols (mm m x) o e (r_row1 r) (r_row2 r) 0 = r_score r).
+Proof.
+  assert (H : forallb (fun sc => model_opt sc small_words) small_schemes = true) by (vm_compute; reflexivity).
+  intros sc s1 s2 Hsc H1 H2. rewrite forallb_forall in H. specialize (H sc Hsc).
+  destruct sc as [[[m x] o] e]. unfold model_opt in H. rewrite forallb_forall in H. specialize (H s1 H1).
+  rewrite forallb_forall in H. specialize (H s2 H2).
+  destruct (align_pair false (mkscheme false m x o e) s1 s2) as [r|]; [|discriminate].
+  exists r. split; [reflexivity|]. apply andb_true_iff in H as [Ha Hb]. apply Z.eqb_eq in Ha. split; [exact Ha|].
+  apply orb_true_iff in Hb as [Hb|Hb]; apply Z.eqb_eq in Hb; [left | right]; exact Hb.
+Qed.
+
+(* a larger domain for the regime "a match is dearer than a gap opening, opening dearer than extending"
+   (where the seeding of the column accumulators matters): words of length 1..4 over {A, C, G} against
+   words of length 1..4 over {A, C} *)
+Definition medium_words1 : list (list byte) := upto 4 [x41; x43; x47].
+Definition medium_words2 : list (list byte) := upto 4 [x41; x43].
+Lemma code_model_optimal_medium :
+  forall s1 s2, In s1 medium_words1 -> In s2 medium_words2 ->
+  exists r, align_pair false (mkscheme false 10 (-8) (-6) (-1)) s1 s2 = Some r /\
+            r_score r = best_enum (mm 10 (-8)) (-6) (-1) s1 s2.
+Proof.
+  assert (H : forallb (fun s1 => forallb (fun s2 =>
+                match align_pair false (mkscheme false 10 (-8) (-6) (-1)) s1 s2 with
+                | Some r => Z.eqb (r_score r) (best_enum (mm 10 (-8)) (-6) (-1) s1 s2)
+                | None => false end) medium_words2) medium_words1 = true) by (vm_compute; reflexivity).
+  intros s1 s2 H1 H2. rewrite forallb_forall in H. specialize (H s1 H1). rewrite forallb_forall in H. specialize (H s2 H2).
+  destruct (align_pair false (mkscheme false 10 (-8) (-6) (-1)) s1 s2) as [r|]; [|discriminate].
+  exists r. split; [reflexivity | apply Z.eqb_eq; exact H].
+Qed.
